@@ -2,7 +2,9 @@
 package props
 
 import (
+	"hash/crc32"
 	"math"
+	"sync"
 
 	"verifmon/core"
 	"verifmon/ref"
@@ -218,4 +220,75 @@ func flipHigh(r *core.Rng, x, h int64) int64 {
 func malformedAfter(r *core.Rng, valid []string) []string {
 	bad := []string{"1/2/3", "", "5/b/0/0/0", "7/1/1/7", "9/0/0/9/1.5"}[r.Intn(5)]
 	return append(append([]string{}, valid...), bad)
+}
+
+// ---- IDs that collide under common 32-bit string hashes ----
+//
+// A cache that uses a 32-bit hash of the ID string as its identity (without comparing the string) returns another
+// voxel's data once in 2^32 consecutive pairs - out of reach for random inputs, but a birthday search over a few
+// hundred thousand valid IDs finds colliding pairs for each common hash in a fraction of a second.
+
+var collisionOnce sync.Once
+var collisionPairs [][2]string
+
+func fnv32a(s string) uint32 {
+	h := uint32(2166136261)
+	for i := 0; i < len(s); i++ {
+		h ^= uint32(s[i])
+		h *= 16777619
+	}
+	return h
+}
+func fnv32(s string) uint32 {
+	h := uint32(2166136261)
+	for i := 0; i < len(s); i++ {
+		h *= 16777619
+		h ^= uint32(s[i])
+	}
+	return h
+}
+func javaHash(s string) uint32 {
+	var h uint32
+	for i := 0; i < len(s); i++ {
+		h = 31*h + uint32(s[i])
+	}
+	return h
+}
+
+// hashCollisionPairs returns pairs of distinct valid extended IDs of equal length that collide under FNV-1a/32,
+// FNV-1/32, CRC-32 (IEEE), Adler-32 or the Java string hash. The pool is a pure function of a fixed seed.
+func hashCollisionPairs() [][2]string {
+	collisionOnce.Do(func() {
+		r := core.NewRng(20260928, "hash-collision-pool", 0)
+		hashes := []func(string) uint32{fnv32a, fnv32, func(s string) uint32 { return crc32.ChecksumIEEE([]byte(s)) }, javaHash}
+		type key struct {
+			f int
+			h uint32
+		}
+		seen := make(map[key]string, 1<<21)
+		perHash := map[int]int{}
+		// all strings have the same length (fixed digit counts), so a cache that also compares lengths is fooled too
+		for i := 0; i < 400000; i++ {
+			id := ref.ID{H: 25, X: 10000000 + r.I64n(23000000), Y: 10000000 + r.I64n(23000000), V: 25, F: 10000000 + r.I64n(23000000)}
+			if r.Bool() {
+				id.F = -id.F
+			}
+			s := id.Ext()
+			for f, hf := range hashes {
+				k := key{f, hf(s)}
+				if f == 0 || f == 1 { // keep lengths equal per sign class
+					k.h ^= uint32(len(s)) << 28
+				}
+				if o, ok := seen[k]; ok && o != s && len(o) == len(s) && hf(o) == hf(s) {
+					if perHash[f] < 24 {
+						perHash[f]++
+						collisionPairs = append(collisionPairs, [2]string{o, s})
+					}
+				} else if !ok {
+					seen[k] = s
+				}
+			}
+		}
+	})
+	return collisionPairs
 }
